@@ -17,8 +17,9 @@ from pbt.ref import durations as ref
 PROPERTY = "C10"
 CLAUSES = []
 ASSUMPTIONS = [
-    "records: finite float64 (or int64-dtype / list / strided / read-only variants; narrow integer dtypes and float32 records are "
-    "handled centrally, not here), 2 <= n <= ~5000 drawn by Hypothesis, laddered lengths 2000..300000 (thorough 2 000 000) in the "
+    "records: finite float64 (or int64 / int32 / int16 / int8 dtype - the narrow ones at the full range of the dtype with the most "
+    "negative sample at the dtype's minimum, oracle at the exact values -, list / strided / read-only variants; float32 records are "
+    "out of scope), 2 <= n <= ~5000 drawn by Hypothesis, laddered lengths 2000..300000 (thorough 2 000 000) in the "
     "mid-range enumerations; non-zero samples have "
     "1e-60 <= |a| <= 1e10 so that squares, cubes, squared velocities and their scalings stay in the normal range (smaller generated "
     "values are flushed to 0 before the record is used)",
@@ -56,6 +57,12 @@ ASSUMPTIONS = [
     "bracketed duration with record and threshold scaled together: 2^k for every case (exact), general alpha only when no |a_i| "
     "lies within 1e-9 (relative) of the threshold",
     "times: sample i is at i*dt; tolerance 4*eps*|t| on a time, 4*eps*end on a duration, 1e-12*(record length) for shifts",
+    "mid-range enumerations: the margin of the strict comparisons is max(1e-9, 4*eps*n) (twice the worst-case rounding n*u of the two "
+    "running sums involved; larger than 1e-9 only above 1.1e6 samples); fraction pairs are placed by the check itself from its own "
+    "double-precision levels of the record (generator side), never from library output; the reference scans are vectorised "
+    "(first True from the front / from the back) above 6000 samples",
+    "options are crossed: both fractions passed, none (defaults 5-95 %), or exactly one of them left at its default; positional and "
+    "keyword spelling; se in {True, False}; im None or a callable; the time step in seven forms",
     "deprecated AccSignal.generate_duration_stats: checked (sd_start, sd_end, t_595) only for records scaled so that "
     "max|a| <= 0.08 m/s2, i.e. below its smallest bracket threshold 0.01 g; above it the method's rms-acceleration lines "
     "call numpy.trapz, which NumPy >= 2.4 no longer has (DESIGN section 4, 'not findings'; rms acceleration is not part of C10)",
@@ -103,6 +110,9 @@ ARRAY_LEVEL = ("sumsq", "deprecated")
 ALL_MEASURES = ["arias", "arias", "sumsq", "sumsq", "deprecated", "cav", "absacc", "isv", "cube", "count", "count", "gated", "gated"]
 HALF_PEAK = ("count", "gated")   # contain a comparison with half the peak: scale-invariant only up to rounding
 DT_FORMS = ["py", "py", "py", "np64", "f32", "0d32", "0d64"]
+# record containers: int64, list, strided / reversed / read-only views, and the narrow integer dtypes of raw digitiser counts
+# (gen.narrow_int: full range of the dtype, the most negative sample = the dtype's minimum; the oracle uses the exact values)
+CONTAINERS = ["int", "list", "int", "list", "view", "negstride", "readonly", "int16", "int16", "int32", "int8"]
 
 
 def _dt(case):
@@ -126,6 +136,8 @@ def _seen(spec, z0=False):
     a = np.where(np.abs(a) < FLUSH, 0.0, a)
     if z0:
         a = np.concatenate([[0.0], a])
+    if spec.get("as") in gen.NARROW_DTYPES:
+        return gen.narrow_int(a, spec["as"])   # (int16 / int32 / int8 container, its exact values)
     arg = gen.as_container(spec, a)
     return arg, np.array(arg, dtype=float)
 
@@ -177,7 +189,7 @@ def _fix_int_amp(spec):
 
 @st.composite
 def _sig_cases(draw, max_n=5000, measures=ALL_MEASURES, containers=True, laws=False):
-    spec = _fix_int_amp(draw(gen.record_specs(min_n=3, max_n=max_n, allow_int=containers)))
+    spec = _fix_int_amp(draw(gen.record_specs(min_n=3, max_n=max_n, allow_int=CONTAINERS if containers else False)))
     measure = draw(st.sampled_from(measures))
     z0 = bool(laws and draw(st.sampled_from([True, True, False])))
     _, a = _seen(spec, z0)
@@ -233,6 +245,13 @@ def _sig_cases(draw, max_n=5000, measures=ALL_MEASURES, containers=True, laws=Fa
         else:
             e = cur * (1 + 3e-9)
         e = max(min(e, 1 - 1e-12), lj * (1 + 1e-6))
+    if not use_default and draw(st.integers(0, 5)) == 0:
+        # one fraction left at its default, the other one passed (the statement's precondition still holds: lev[j] lies between)
+        side = draw(st.sampled_from(["s", "e"]))
+        if side == "s" and 0.05 < lj * (1 - 1e-6):
+            s, case["partial"] = 0.05, "s"
+        elif side == "e" and 0.95 > lj * (1 + 1e-6):
+            e, case["partial"] = 0.95, "e"
     case["s"], case["e"] = float(s), float(e)
     if laws:
         case["k2"] = draw(st.integers(-8, 8))
@@ -247,25 +266,14 @@ def _sig_cases(draw, max_n=5000, measures=ALL_MEASURES, containers=True, laws=Fa
 # calling the library / reference values
 
 
-def _call_sig(ctx, measure, arr, asig, dt, s, e, se, form="kw", defaults=False):
-    """One call of the entry point that belongs to `measure` (dt: the time step as handed to the library)."""
+def _call_sig(ctx, measure, arr, asig, dt, s, e, se, form="kw", defaults=False, partial=None):
+    """One call of the entry point that belongs to `measure` (dt: the time step as handed to the library).
+    defaults: neither fraction is passed; partial='s' / 'e': that fraction is left at its default (the caller made sure that
+    s == 0.05 / e == 0.95), the other one is passed - the options are exercised in every combination, not one at a time."""
     fn = MEASURES[measure][1]
-    if measure == "sumsq":
-        f, lead = im.calc_sig_dur_vals, (arr, dt)
-        if defaults:
-            args, kw = lead, {"se": se}
-        elif form == "pos":
-            args, kw = lead + (s, e, se), {}
-        else:
-            args, kw = lead, {"start": s, "end": e, "se": se}
-    elif measure == "deprecated":
-        f, lead = im.calc_significant_duration, (arr, dt)
-        if defaults:
-            args, kw = lead, {}
-        elif form == "pos":
-            args, kw = lead + (s, e), {}
-        else:
-            args, kw = lead, {"start": s, "end": e}
+    if measure in ARRAY_LEVEL:
+        f, lead = (im.calc_sig_dur_vals if measure == "sumsq" else im.calc_significant_duration), (arr, dt)
+        tail = {"se": se} if measure == "sumsq" else {}
     else:
         f, lead = im.calc_sig_dur, (asig,)
         if fn is not None:
@@ -277,12 +285,18 @@ def _call_sig(ctx, measure, arr, asig, dt, s, e, se, form="kw", defaults=False):
             except Exception:  # noqa  (the decoy's own precondition may fail on this record; irrelevant)
                 pass
             fn = (lambda s, _f=fn: _f(s))
-        if defaults:
-            args, kw = lead, ({"se": se} if fn is None else {"im": fn, "se": se})
-        elif form == "pos":
-            args, kw = lead + (s, e, fn, se), {}
-        else:
-            args, kw = lead, {"start": s, "end": e, "im": fn, "se": se}
+        tail = {"se": se} if fn is None else {"im": fn, "se": se}
+    if defaults:
+        args, kw = lead, dict(tail)
+    elif partial == "s":
+        args, kw = lead, dict(tail, end=e)
+    elif partial == "e":
+        args, kw = (lead + (s,), dict(tail)) if form == "pos" else (lead, dict(tail, start=s))
+    elif form == "pos":
+        # everything positionally, in the documented order (start, end[, im], se)
+        args, kw = lead + (s, e) + ((fn,) if f is im.calc_sig_dur else ()) + ((se,) if "se" in tail else ()), {}
+    else:
+        args, kw = lead, dict(tail, start=s, end=e)
     return ctx.lib(f, *args, **kw)
 
 
@@ -408,19 +422,26 @@ def _check_sig(case, ctx, exact):
             ctx.cls("tie")
             if margin == 0 and bt.nonstrict != bt.strict:
                 ctx.cls("tie-decisive", "tie-decisive-" + ("arias" if measure == "arias" else "rational"))
-    _sig_assert(ctx, bt, measure, arr, asig, dt_arg, dt, n, s, e, form, defaults)
+    partial = case.get("partial")
+    if partial:
+        ctx.cls("one-fraction-default")
+    _sig_assert(ctx, bt, measure, arr, asig, dt_arg, dt, n, s, e, form, defaults, partial=partial)
     if case.get("hist") and asig is not None and n >= 4 and np.asarray(asig.values).dtype.kind == "f":
         # the result belongs to the record the signal holds NOW: replace the values (same length) and ask again
         b = np.array(a[::-1]) * 0.5
         b[n // 3] += 0.25 * float(np.max(np.abs(a)))
-        ctx.lib(asig.reset_values, b)
+        b_arg = b
+        if n % 2:   # every other time the new values are raw digitiser counts (the object must analyse their exact values)
+            b_arg, b = gen.narrow_int(b, "int16")
+            ctx.cls("reset-to-int16")
+        ctx.lib(asig.reset_values, b_arg)
         vals2, margin2 = _ref_values(ctx, measure, b, dt, asig, False, s, e)
         bt2 = ref.Between(vals2, s, e, margin2)
         ctx.cls("after-reset-values")
-        _sig_assert(ctx, bt2, measure, arr, asig, dt_arg, dt, n, s, e, form, defaults, tag=" after reset_values")
+        _sig_assert(ctx, bt2, measure, arr, asig, dt_arg, dt, n, s, e, form, defaults, tag=" after reset_values", partial=partial)
 
 
-def _sig_assert(ctx, bt, measure, arr, asig, dt_arg, dt, n, s, e, form, defaults, tag=""):
+def _sig_assert(ctx, bt, measure, arr, asig, dt_arg, dt, n, s, e, form, defaults, tag="", partial=None):
     """Call the entry point of `measure` with se=True and se=False and compare with the reference bracket `bt`."""
     if bt.fails:
         ctx.cls("precondition-fails")
@@ -433,8 +454,8 @@ def _sig_assert(ctx, bt, measure, arr, asig, dt_arg, dt, n, s, e, form, defaults
         return
     got_se = None
     if measure != "deprecated":
-        got_se = _call_sig(ctx, measure, arr, asig, dt_arg, s, e, True, form, defaults)
-    got_dur = _call_sig(ctx, measure, arr, asig, dt_arg, s, e, False, form, defaults)
+        got_se = _call_sig(ctx, measure, arr, asig, dt_arg, s, e, True, form, defaults, partial)
+    got_dur = _call_sig(ctx, measure, arr, asig, dt_arg, s, e, False, form, defaults, partial)
     if bt.ambiguous:
         ctx.cls("ambiguous")
     elif not tag:
@@ -446,7 +467,7 @@ def _sig_assert(ctx, bt, measure, arr, asig, dt_arg, dt, n, s, e, form, defaults
     _assert_result(ctx, bt, dt, n, got_se, got_dur, "%s(s=%r, e=%r)%s" % (measure, s, e, tag))
     if measure == "deprecated":
         # the deprecated alias must agree with its replacement
-        d2 = ctx.lib(im.calc_sig_dur_vals, arr, dt_arg, start=s, end=e)
+        d2 = ctx.lib(im.calc_sig_dur_vals, arr, dt_arg, start=s, end=e)  # (s, e are the defaults where they were left out)
         ctx.check(float(d2) == float(got_dur), "calc_significant_duration %r != calc_sig_dur_vals %r" % (got_dur, d2))
 
 
@@ -463,7 +484,7 @@ def _sig_assert(ctx, bt, measure, arr, asig, dt_arg, dt, n, s, e, form, defaults
         oracle="reference model: long-double running sums + front/back scan with the statement's strict inequalities at thresholds "
                "moved by +-1e-9; equality (4 eps) when unambiguous, bracket otherwise; 0<=start<=end<=(n-1)dt; se=False == end-start",
         require={"m=arias": 0.1, "m=sumsq": 0.1, "m=count": 0.03, "defaults": 0.05, "start>0": 0.3, "form=pos": 0.3,
-                 "ambiguous": 0.05},
+                 "ambiguous": 0.05, "one-fraction-default": 0.03, "after-reset-values": 0.08, "dt=f32": 0.05},
         min_nontrivial=0.4)
 def definition(case, ctx):
     _check_sig(case, ctx, exact=False)
@@ -472,7 +493,7 @@ def definition(case, ctx):
 # ---------------------------------------------------------------------------
 # clause 1b: exact ties (strictness of both inequalities)
 
-TIE_MEASURES = ["sumsq", "sumsq", "deprecated", "cav", "absacc", "cube", "count", "isv", "arias", "arias", "gated"]
+TIE_MEASURES = ["sumsq", "sumsq", "deprecated", "cav", "absacc", "cube", "count", "isv", "arias", "arias", "arias", "gated"]
 
 
 def _values_exact(a, dt, measure):
@@ -546,6 +567,11 @@ def _tie_cases(draw):
     m2 = draw(st.integers(den // 2, den - 1))
     assume(m1 < m2)
     s, e = m1 / den, m2 / den
+    if measure == "arias" and fam == "unit":
+        # every pulse gets both of its trapezoid half-panels (the record starts and ends with a zero), so that the Arias levels are
+        # the multiples of total/2^(q+1) and a fraction 2^-p meets one of them
+        ints = list(spec["ints"])
+        spec["ints"] = ([0] if ints[0] != 0 else []) + ints + ([0] if ints[-1] != 0 else [])
     if measure == "arias":
         # the irrational constant: a tie is decidable when the fraction is a power of two (see ASSUMPTIONS); the other fraction
         # is a power of two as well (1/2) or sits half a level away from every level (no tie there)
@@ -571,7 +597,7 @@ def _tie_cases(draw):
              "evaluation-order proof succeeds); non-trivial = unambiguous and 0 < duration < record length",
         oracle="reference model in exact rational arithmetic (fractions.Fraction): a sample whose cumulative value EQUALS a fraction of "
                "the final value is not strictly between; index equality, no margin, when the per-case exactness proof succeeds",
-        require={"tie-decisive": 0.25, "exact": 0.6, "tie-decisive-arias": 0.03}, min_nontrivial=0.4)
+        require={"tie-decisive": 0.25, "exact": 0.6, "tie-decisive-arias": 0.02}, min_nontrivial=0.4)
 def ties(case, ctx):
     ctx.cls("fam=" + case.get("fam", "?"))
     _check_sig(case, ctx, exact=True)
@@ -659,7 +685,7 @@ _THR_MODES = ["zero", "sample", "sample", "below-sample", "frac", "frac", "max",
 
 @st.composite
 def _brac_cases(draw):
-    spec = _fix_int_amp(draw(gen.record_specs(min_n=2, max_n=5000, allow_int=True)))
+    spec = _fix_int_amp(draw(gen.record_specs(min_n=2, max_n=5000, allow_int=CONTAINERS)))
     _, a = _seen(spec)
     ab = np.abs(a)
     mx = float(ab.max())
@@ -720,6 +746,19 @@ def bracketed(case, ctx):
         ctx.cls("as=" + spec["as"])
     asig = ctx.lib(eqsig.AccSignal, arg, dt_arg)
     _brac_checks(ctx, asig, a, dt_arg, dt, case["thr"], case.get("modes"), case.get("k2", 0), case.get("alpha"))
+    _brac_after_reset(ctx, asig, a, dt_arg, dt)
+
+
+def _brac_after_reset(ctx, asig, a, dt_arg, dt):
+    """The result belongs to the record the signal holds NOW: replace the values by raw digitiser counts (int16, the most negative
+    sample at the dtype's minimum) and ask again, with a threshold that only the largest |sample| exceeds."""
+    if len(a) < 2 or not np.any(a):
+        return
+    b_arg, b = gen.narrow_int(a[::-1], "int16")
+    ctx.lib(asig.reset_values, b_arg)
+    ctx.cls("reset-to-int16")
+    mb = float(np.max(np.abs(b)))
+    _brac_checks(ctx, asig, b, dt_arg, dt, [float(np.nextafter(mb, 0.0)), 0.5 * mb], None, 1, None)
 
 
 def _brac_checks(ctx, asig, a, dt_arg, dt, thrs, modes, k, alpha):
@@ -822,7 +861,7 @@ def deprecated_stats(case, ctx):
 # different stretches of the record.
 
 MID_KINDS = ["quake", "sines", "walk", "noise"]
-MID_CONTAINERS = ["ndarray", "ndarray", "ndarray", "list", "view", "negstride", "readonly", "int"]
+MID_CONTAINERS = ["ndarray", "ndarray", "ndarray", "list", "view", "negstride", "readonly", "int", "int16", "int32"]
 MID_MEASURES = ["arias", "sumsq", "deprecated", "cav", "absacc", "isv", "cube", "count", "gated", "stats"]
 _S_MODES = ["mid", "u", "u", "above-prev", "below-cur"]
 _E_MODES = ["mid", "u", "u", "below-next", "above-cur"]
@@ -875,6 +914,8 @@ def _mid_container(a, how):
         return np.array(np.round(a * (1000.0 / max(1e-300, float(np.max(np.abs(a)))))), dtype=np.int64)
     if how == "ndarray":
         return a
+    if how in gen.NARROW_DTYPES:
+        return gen.narrow_int(a, how)[0]
     return gen.as_container({"as": how}, a)
 
 
@@ -1080,3 +1121,4 @@ def mid_range_bracketed(case, ctx):
         modes.append(mode)
     asig = ctx.lib(eqsig.AccSignal, arg, dt_arg)
     _brac_checks(ctx, asig, a, dt_arg, dt, thrs, modes, int(case["k2"]), float(case["alpha"]))
+    _brac_after_reset(ctx, asig, a, dt_arg, dt)
